@@ -285,6 +285,16 @@ pub fn check_termination(case: &StrCase, ctx: &mut Ctx) -> Verdict {
     };
     let job = case.job();
     ctx.obs.label(&format!("part:{}", case.tag));
+    if case.pattern.contains('^') || case.pattern.contains('$') {
+        // the same text read by the other dialect first, in the same worker thread (there ^ and $ are literals or
+        // anchors the other way round): what the library remembers about a text must not decide whether the
+        // iterators of this one end. The outcome of this step is not judged.
+        let mut other = case.job();
+        other.dialect = if other.dialect == Dialect::XPath { Dialect::Xsd } else { Dialect::XPath };
+        other.inputs = vec![];
+        let _ = ctx.w.run_budget(&other, B1_MS);
+        ctx.obs.label("other-dialect-compiled-first");
+    }
     match ctx.w.run_budget(&job, B1_MS) {
         JobResult::Done(out) => {
             if out.compile.ok().is_none() {
@@ -417,7 +427,7 @@ impl Prop for C06 {
         150
     }
     fn rule(&self) -> String {
-        "evaluation = one API call (is_match, replace_all, tokenize and analyze driven to exhaustion plus three extra next() calls) under a CPU-time watchdog; non-trivial = compiled pattern from the quantifier-heavy generators on a non-empty input; distinct = distinct (pattern, flags, input). Bounded observation: a call counts as non-terminating when it exceeds 0.5 s of CPU with all inputs, then with that input alone, and, on the minimal input still exceeding 2 s (found by deleting chunks, then single characters), the call exceeds 10 s while every single-character deletion returns in < 2 ms both normally and with all compile-time optimisations off (so exponential but finite backtracking, which grows by a bounded factor per character, is not reported, even when a required-literal shortcut makes its neighbours return at once); normal cost < 1 ms, the maximum seen is reported as max_job_wall_us".into()
+        "(patterns with ^ or $ are first compiled under the other dialect in the same worker thread, outcome not judged) evaluation = one API call (is_match, replace_all, tokenize and analyze driven to exhaustion plus three extra next() calls) under a CPU-time watchdog; non-trivial = compiled pattern from the quantifier-heavy generators on a non-empty input; distinct = distinct (pattern, flags, input). Bounded observation: a call counts as non-terminating when it exceeds 0.5 s of CPU with all inputs, then with that input alone, and, on the minimal input still exceeding 2 s (found by deleting chunks, then single characters), the call exceeds 10 s while every single-character deletion returns in < 2 ms both normally and with all compile-time optimisations off (so exponential but finite backtracking, which grows by a bounded factor per character, is not reported, even when a required-literal shortcut makes its neighbours return at once); normal cost < 1 ms, the maximum seen is reported as max_job_wall_us".into()
     }
     fn guards(&self) -> Vec<Guard> {
         vec![Guard { label: "compile=ok".into(), of: "".into(), min_fraction: 0.5 }, Guard { label: "tokenize=ok".into(), of: "".into(), min_fraction: 0.2 }]
